@@ -65,13 +65,17 @@ def cells_from_flags(env, flags, base=10):
 def mk_series_directional(n, limit, tier='quick'):
     def body(env, **kw):
         sf = env.sf
-        flags = [kw[f'm{i}'] for i in range(n)]
-        lib, ref = cells_from_flags(env, flags)
-        s = sf.Series(env.array(lib, 'float64'), index=list(range(100, 100 + n)), name='sn')
-        got = [env.obs(s.fillna_forward(limit).values.tolist()), env.obs(s.fillna_backward(limit).values.tolist()),
-               env.obs(s.values.tolist())]
-        exp = [ref_directional(ref, True, limit), ref_directional(ref, False, limit), ref]
-        return got, exp
+        from vf import rt
+        flags = [bool(kw[f'm{i}']) for i in range(n)]   # one solver decision per cell, then everything is concrete
+
+        def run():
+            lib, ref = cells_from_flags(env, flags)
+            s = sf.Series(env.array(lib, 'float64'), index=list(range(100, 100 + n)), name='sn')
+            got = [env.obs(s.fillna_forward(limit).values.tolist()), env.obs(s.fillna_backward(limit).values.tolist()),
+                   env.obs(s.values.tolist())]
+            exp = [ref_directional(ref, True, limit), ref_directional(ref, False, limit), ref]
+            return got, exp
+        return rt.untraced(run)
     return Cond(f'series_directional_n{n}_limit{limit}', [(f'm{i}', 'bool') for i in range(n)], body,
             functions=['Series._fillna_directional', 'binary_transition', 'slices_from_targets', 'isna_array'],
             bounds=f'float64 Series of {n}; every missing pattern (one symbolic Boolean per cell); limit = {limit}',
@@ -159,14 +163,18 @@ def by_axis(ref_rows, axis, fn):
 
 def mk_frame_directional(nrows, ncols, layout, axis, limit, tier='quick', timeout=None):
     def body(env, **kw):
-        flags = [[kw[f'm{r}{c}'] for c in range(ncols)] for r in range(nrows)]
-        f, ref = mk_frame(env, flags, layout)
-        got = [env.obs(f.fillna_forward(limit, axis=axis).values.tolist()),
-               env.obs(f.fillna_backward(limit, axis=axis).values.tolist()),
-               env.obs(f.values.tolist())]
-        exp = [by_axis(ref, axis, lambda l: ref_directional(l, True, limit)),
-               by_axis(ref, axis, lambda l: ref_directional(l, False, limit)), ref]
-        return got, exp
+        from vf import rt
+        flags = [[bool(kw[f'm{r}{c}']) for c in range(ncols)] for r in range(nrows)]
+
+        def run():
+            f, ref = mk_frame(env, flags, layout)
+            got = [env.obs(f.fillna_forward(limit, axis=axis).values.tolist()),
+                   env.obs(f.fillna_backward(limit, axis=axis).values.tolist()),
+                   env.obs(f.values.tolist())]
+            exp = [by_axis(ref, axis, lambda l: ref_directional(l, True, limit)),
+                   by_axis(ref, axis, lambda l: ref_directional(l, False, limit)), ref]
+            return got, exp
+        return rt.untraced(run)
     fn = ['TypeBlocks._fillna_directional_axis_1' if axis else 'TypeBlocks._fillna_directional_axis_0', 'binary_transition', 'slices_from_targets']
     return Cond(f'frame_directional_{nrows}x{ncols}_{layouts.name(layout)}_axis{axis}_limit{limit}',
             [(f'm{r}{c}', 'bool') for r in range(nrows) for c in range(ncols)], body, functions=fn,
@@ -175,9 +183,11 @@ def mk_frame_directional(nrows, ncols, layout, axis, limit, tier='quick', timeou
 
 
 L3 = [((1, 1), (2, 2)), ((2, 2), (1, 1)), ((1, 1), (1, 1), (1, 1)), ((2, 3),), ((2, 1), (2, 2))]
-for _lay in L3[:3]:
-    for _lim in (0, 1):
+for _lay in L3:
+    for _lim in (0, 1, 2):
         _add(mk_frame_directional(2, 3, _lay, 1, _lim, timeout=200))
+_add(mk_frame_directional(2, 4, ((2, 2), (2, 2)), 1, 1, timeout=240))
+_add(mk_frame_directional(2, 4, ((1, 1), (2, 3)), 1, 2, timeout=240))
 _add(mk_frame_directional(1, 6, ((1, 1), (2, 5)), 1, 2, timeout=240))   # wide 2-D block after a 1-D block, limit 2
 _add(mk_frame_directional(3, 2, ((1, 1), (1, 1)), 0, 1, timeout=200))
 _add(mk_frame_directional(3, 2, ((2, 2),), 0, 0, timeout=200))
